@@ -52,16 +52,27 @@ const (
 	ctxRelayUser
 	ctxMiddleDeep
 	ctxMiddleVia // victim -> innocent intermediate realm -> attacker hook
+	ctxCallback  // victim invokes an attacker callback func(realm) / Runner with its own cur
 	ctxNum
 )
 
-var c08CtxNames = []string{"direct", "victim-calls-hook", "closure-in-victim", "iface-in-victim", "inner-stale-outer", "msgrun", "gated-via-realm", "gated-via-run", "relay-double-spend", "realm-victim-hook", "victim-mid-hook"}
+var c08CtxNames = []string{"direct", "victim-calls-hook", "closure-in-victim", "iface-in-victim", "inner-stale-outer", "msgrun", "gated-via-realm", "gated-via-run", "relay-double-spend", "realm-victim-hook", "victim-mid-hook", "victim-runs-callback"}
 
 // c08DrawStmt draws one statement. Besides the fully random family, three
 // families aim at attacks that are coherent enough to get past all but one
 // guard: spending through a banker built from somebody else's realm value,
 // spending foreign coins through one's own banker, and issuing/burning foreign
 // denoms through one's own issuing banker.
+var c08CbForms = []string{
+	"lit/cb(cur)", "lit/defer cb(cur)", "lit/closure{cb(cur)}", "lit/defer closure{cb(cur)}", "lit/stored var", "lit/method value", "lit/defer stored var", "lit/defer field",
+	"named/cb(cur)", "named/defer cb(cur)", "named/closure{cb(cur)}", "named/defer closure{cb(cur)}", "named/stored var", "named/method value", "named/defer stored var", "named/defer field",
+}
+
+func init() {
+	// forms 12-15 go through the Runner interface instead
+	copy(c08CbForms[12:], []string{"iface/v.Run(cur)", "iface/defer v.Run(cur)", "iface/method value", "iface/defer method value"})
+}
+
 func c08DrawStmt(rt *rapid.T) c08Stmt {
 	s := c08Stmt{}
 	s.Via = rapid.IntRange(0, viaNum+1).Draw(rt, "via")
@@ -159,6 +170,19 @@ func c08DrawTx(rt *rapid.T) c08Tx {
 		tx.Addr = rapid.SampledFrom([]int{aAttUser, aA1, aHook}).Draw(rt, "to")
 		tx.Amt = rapid.SampledFrom([]int64{1, 1000, 300_000, 2_000_000}).Draw(rt, "amt")
 		tx.N = rapid.IntRange(1, 3).Draw(rt, "times")
+		if tx.Stmt.Forge == 0 && rapid.IntRange(0, 3).Draw(rt, "cbctx") == 1 {
+			// the victim runs an attacker callback with its own cur: the callback spends on the received value
+			tx.Ctx = ctxCallback
+			tx.N = rapid.IntRange(0, 15).Draw(rt, "form")
+			if rapid.IntRange(0, 3).Draw(rt, "cbcoherent") != 2 {
+				tx.Stmt.RX = rapid.SampledFrom([]int{0, 0, 0, 4, 1}).Draw(rt, "cbrx")
+				tx.Stmt.BT = rapid.SampledFrom([]int{2, 2, 3, 1}).Draw(rt, "cbbt")
+				tx.Stmt.Op = rapid.SampledFrom([]int{0, 0, 1, 2}).Draw(rt, "cbop")
+				tx.Stmt.From = rapid.SampledFrom([]int{aRXAddr, aRXAddr, aVault, aCurAddr}).Draw(rt, "cbfrom")
+				tx.Stmt.Den = rapid.SampledFrom([]int{0, 0, 9, 0}).Draw(rt, "cbden")
+				tx.Stmt.Amt = rapid.SampledFrom([]int64{1000, 0, 250_000}).Draw(rt, "cbamt")
+			}
+		}
 		return tx
 	}
 }
@@ -219,6 +243,18 @@ func (w *c08World) render(c c08Case) c08Program {
 		case ctxIface:
 			ra1.imports[c08PathVault] = true
 			fmt.Fprintf(&a1, "func Go%d(cur realm) {\n\tvault.VisitI(cross(cur), vis{func() {\n%s\t}})\n}\n\n", i, ra1.stmt(tx.Stmt, c08PathA1, false, true, "\t\t"))
+		case ctxCallback:
+			ra1.imports[c08PathVault] = true
+			form := tx.N % 16
+			body := ra1.stmt(tx.Stmt, c08PathA1, true, true, "\t")
+			switch {
+			case form >= 12: // interface value whose method lives in the attacker realm
+				fmt.Fprintf(&a1, "type run%d struct{ outer realm }\n\nfunc (r run%d) Run(cur realm) {\n\touter := r.outer\n\t_ = outer\n%s}\n\nfunc Go%d(cur realm) {\n\tvault.CbI(cross(cur), %d, run%d{cur})\n}\n\n", i, i, body, i, form%4, i)
+			case form >= 8: // named top-level crossing function
+				fmt.Fprintf(&a1, "func loot%d(cur realm) {\n\touter := cur\n\t_ = outer\n%s}\n\nfunc Go%d(cur realm) {\n\tvault.Cb(cross(cur), %d, loot%d)\n}\n\n", i, body, i, form%8, i)
+			default: // crossing function literal capturing the attacker's own cur as outer
+				fmt.Fprintf(&a1, "func Go%d(cur realm) {\n\touter := cur\n\t_ = outer\n\tvault.Cb(cross(cur), %d, func(cur realm) {\n%s\t})\n}\n\n", i, form%8, strings.ReplaceAll(body, "\n\t", "\n\t\t"))
+			}
 		case ctxInner:
 			fmt.Fprintf(&a1, "func Go%d(cur realm) {\n\tin%d(cross(cur), cur)\n}\n\nfunc in%d(cur realm, outer realm) {\n%s}\n\n", i, i, i, ra1.stmt(tx.Stmt, c08PathA1, true, true, "\t"))
 		case ctxRun:
@@ -487,7 +523,7 @@ func c08Exec(ctx *vk.Ctx, c c08Case) error {
 			case ctxGated, ctxGatedRun, ctxRelayUser:
 				nt = nt || outcome != "other" || ok
 			default:
-				if w.foreign(tx.Stmt, selfIdx) && outcome != "type-or-preprocess" {
+				if (w.foreign(tx.Stmt, selfIdx) || tx.Ctx%ctxNum == ctxCallback) && outcome != "type-or-preprocess" {
 					nt = true
 					ctx.Class("foreign:" + outcome)
 				} else {
@@ -510,6 +546,9 @@ func c08Exec(ctx *vk.Ctx, c c08Case) error {
 				break
 			}
 			return fmt.Errorf("harness: tx %d rejected by the ante handler: %v", i, r.Error)
+		}
+		if tx.Kind == "attack" && tx.Ctx%ctxNum == ctxCallback {
+			ctx.Class(fmt.Sprintf("callback form=%s outcome=%s", c08CbForms[tx.N%16], outcome))
 		}
 		if tx.Kind == "attack" && tx.Stmt.Forge%fgNum != fgNone {
 			ctx.Class(fmt.Sprintf("forge route=%s outcome=%s", c08ForgeNames[tx.Stmt.Forge%fgNum], outcome))
@@ -551,6 +590,7 @@ func c08Outcome(err error, log string) string {
 	}
 	s := err.Error() + " " + log
 	for _, p := range [][2]string{
+		{"cannot cur-call to external realm function", "foreign-cur-call-refused"},
 		{"can only send coins from realm that created banker", "from!=banker-realm"},
 		{"banker can only be instantiated for the current realm", "not-current-realm"},
 		{"invalid banker type", "bad-banker-type"},
@@ -708,4 +748,42 @@ func TestC08_Authority(t *testing.T) {
 		Rule: "rapid: 3-7 txs (one per block) over a fresh gno.land chain with 4 victim realms (vault with callbacks and an outcall, origin-send relay, admin-gated payout, admin-gated issuer) and 2 attacker realms rendered per case from a banker grammar: NewBanker(type 0-4/200, cur | cur.Previous() | Previous().Previous() | stale outer cur | cur.Sub | Previous().Sub) then SendCoins/IssueCoin/RemoveCoin with from in {victim user, admin, victim realms, deposit addresses, fee collectors, rx.Address(), own}, foreign/malformed denoms, amounts incl. whole balance, negative and 2^62, banker used directly / through embedding+interface / closure / handed to a partner realm / stored in a package var; executed as direct MsgCall, from a realm the victim calls out to, inside closures and interface methods run by the victim, in an inner crossing frame with the stale outer cur, as MsgRun scripts, against admin-gated functions via realm or script, and as origin-send double spends; interleaved with legitimate mints, burns, payouts, deposits, forwards, sends, storage growth and release. Oracle: balance deltas of ALL addresses from raw keys; non-trivial = a deployed (type-checked) attack that executed with a foreign from/denom/realm identity",
 		Draw: c08Draw, Exec: c08Exec,
 	})
+}
+
+// TestC08_Callbacks enumerates the callback matrix deterministically: every
+// call form by which the vault invokes a supplied crossing callback with its
+// own cur (plain, deferred, inside a closure, inside a deferred closure, via a
+// stored function variable, via a method value, deferred stored variable,
+// deferred struct field; callback given as function literal, named function or
+// interface value) x the coin-moving uses of the received realm value.
+func TestC08_Callbacks(t *testing.T) {
+	r := vk.Open(t, "C08", "TestC08_Callbacks", "enumeration: 16 call forms by which a victim realm invokes an attacker-supplied crossing callback (func(realm) literal / named function / interface method) with its own cur x 5 uses of the received realm value (RealmSend and RealmIssue SendCoins of the victim's coins, whole balance, IssueCoin and RemoveCoin of the victim realm's denom); all-address balance and supply deltas; every case is non-trivial (the callback attack was deployed and executed)")
+	defer r.Close()
+	if vk.Replaying() {
+		t.Skip()
+	}
+	r.ReplayAs = "TestC08_Authority"
+	r.Extra("exhaustive", true)
+	uses := []c08Stmt{
+		{RX: 0, BT: 2, Op: 0, From: aRXAddr, To: aAttUser, Den: 0, Amt: 1000},
+		{RX: 0, BT: 3, Op: 0, From: aRXAddr, To: aA1, Den: 0, Amt: 250_000},
+		{RX: 0, BT: 2, Op: 0, From: aVault, To: aAttUser, Den: 0, Amt: 0},
+		{RX: 0, BT: 3, Op: 1, From: aRXAddr, To: aAttUser, Den: 9, Amt: 7},
+		{RX: 0, BT: 3, Op: 2, From: aVault, To: aAttUser, Den: 1, Amt: 7},
+	}
+	for form := 0; form < 16; form++ {
+		for ui, u := range uses {
+			if !r.Thorough() && ui >= 2 && form%4 != 1 {
+				continue // quick: all forms x the two plain uses, and all uses on the deferred forms
+			}
+			c := c08Case{Txs: []c08Tx{
+				{Kind: "deposit", Signer: 1, Send: 70_000},
+				{Kind: "attack", Ctx: ctxCallback, Signer: 0, Stmt: u, N: form, Addr: aAttUser, Amt: 1000},
+				{Kind: "attack", Ctx: ctxCallback, Signer: 1, Stmt: u, N: form, Addr: aAttUser, Amt: 1000},
+			}}
+			if r.Do(c, func(ctx *vk.Ctx) error { return c08Exec(ctx, c) }) != nil {
+				return
+			}
+		}
+	}
 }
